@@ -76,14 +76,27 @@ impl<T> ArcSwapOption<T> {
     }
 }
 
-/// [`scc::HashIndex`] whose blocking operations are visible to the simulator.
+/// [`scc::HashIndex`] as the path manager uses it, in two variants.
 ///
-/// `entry_sync` keeps a bucket locked until the returned entry is dropped; another simulated task
-/// calling into the map meanwhile would block in a way the simulator cannot see. A map-level busy
-/// flag makes such a task wait at a point the simulator does see.
+/// Outside a simulation (`verif::simulated()` false at construction) it forwards to the real
+/// [`scc::HashIndex`].
+///
+/// In a simulation it is a small model with the same observable contract: removal takes effect at
+/// once, but the removed value is *dropped later* (scc reclaims removed entries through epoch based
+/// garbage collection, at a moment that depends on process wide state). The model keeps removed
+/// values in a limbo list that the simulator empties at a moment of its choosing
+/// ([`HashIndex::verif_collect`]), which makes that moment a reproducible decision. Holding an entry
+/// (`entry_sync`, `get_sync`) excludes other map operations, like scc's bucket lock; a simulated
+/// task that runs into a held entry waits at a point the simulator sees.
 pub struct HashIndex<K, V> {
-    inner: scc::HashIndex<K, V>,
+    real: Option<scc::HashIndex<K, V>>,
+    model: std::sync::Mutex<Model<K, V>>,
     busy: AtomicBool,
+}
+
+struct Model<K, V> {
+    map: std::collections::BTreeMap<K, Arc<V>>,
+    limbo: Vec<Arc<V>>,
 }
 
 struct BusyGuard<'h>(&'h AtomicBool);
@@ -107,51 +120,88 @@ pub enum Entry<'h, K, V> {
     Vacant(VacantEntry<'h, K, V>),
 }
 
+enum OccupiedInner<'h, K, V> {
+    Real(scc::hash_index::OccupiedEntry<'h, K, V>),
+    Model(K, Arc<V>),
+}
+
 /// See [`scc::hash_index::OccupiedEntry`].
 pub struct OccupiedEntry<'h, K, V> {
-    inner: scc::hash_index::OccupiedEntry<'h, K, V>,
+    inner: OccupiedInner<'h, K, V>,
     _busy: Option<BusyGuard<'h>>,
+}
+
+enum VacantInner<'h, K, V> {
+    Real(scc::hash_index::VacantEntry<'h, K, V>),
+    Model(&'h HashIndex<K, V>, K),
 }
 
 /// See [`scc::hash_index::VacantEntry`].
 pub struct VacantEntry<'h, K, V> {
-    inner: scc::hash_index::VacantEntry<'h, K, V>,
+    inner: VacantInner<'h, K, V>,
     busy: Option<BusyGuard<'h>>,
 }
 
 impl<K: Eq + Hash, V> OccupiedEntry<'_, K, V> {
     /// See [`scc::hash_index::OccupiedEntry::get`].
     pub fn get(&self) -> &V {
-        self.inner.get()
+        match &self.inner {
+            OccupiedInner::Real(e) => e.get(),
+            OccupiedInner::Model(_, v) => v,
+        }
     }
 
     /// See [`scc::hash_index::OccupiedEntry::key`].
     pub fn key(&self) -> &K {
-        self.inner.key()
-    }
-}
-
-impl<'h, K: Eq + Hash, V> VacantEntry<'h, K, V> {
-    /// See [`scc::hash_index::VacantEntry::insert_entry`].
-    pub fn insert_entry(self, value: V) -> OccupiedEntry<'h, K, V> {
-        OccupiedEntry {
-            inner: self.inner.insert_entry(value),
-            _busy: self.busy,
+        match &self.inner {
+            OccupiedInner::Real(e) => e.key(),
+            OccupiedInner::Model(k, _) => k,
         }
     }
 }
 
-impl<K: Eq + Hash, V> Default for HashIndex<K, V> {
+impl<'h, K: Eq + Hash + Ord + Clone, V> VacantEntry<'h, K, V> {
+    /// See [`scc::hash_index::VacantEntry::insert_entry`].
+    pub fn insert_entry(self, value: V) -> OccupiedEntry<'h, K, V> {
+        match self.inner {
+            VacantInner::Real(e) => {
+                OccupiedEntry {
+                    inner: OccupiedInner::Real(e.insert_entry(value)),
+                    _busy: self.busy,
+                }
+            }
+            VacantInner::Model(index, key) => {
+                let value = Arc::new(value);
+                index
+                    .model
+                    .lock()
+                    .expect("model lock")
+                    .map
+                    .insert(key.clone(), value.clone());
+                OccupiedEntry {
+                    inner: OccupiedInner::Model(key, value),
+                    _busy: self.busy,
+                }
+            }
+        }
+    }
+}
+
+impl<K: Eq + Hash + Ord + Clone, V> Default for HashIndex<K, V> {
     fn default() -> Self {
         Self::new()
     }
 }
 
-impl<K: Eq + Hash, V> HashIndex<K, V> {
+impl<K: Eq + Hash + Ord + Clone, V> HashIndex<K, V> {
     /// See [`scc::HashIndex::new`].
     pub fn new() -> Self {
         HashIndex {
-            inner: scc::HashIndex::new(),
+            real: (!verif::simulated()).then(scc::HashIndex::new),
+            model: std::sync::Mutex::new(Model {
+                map: std::collections::BTreeMap::new(),
+                limbo: Vec::new(),
+            }),
             busy: AtomicBool::new(false),
         }
     }
@@ -169,22 +219,37 @@ impl<K: Eq + Hash, V> HashIndex<K, V> {
         }
     }
 
+    fn model_get(&self, key: &K) -> Option<Arc<V>> {
+        self.model.lock().expect("model lock").map.get(key).cloned()
+    }
+
     /// See [`scc::HashIndex::peek_with`].
     pub fn peek_with<R, F: FnOnce(&K, &V) -> R>(&self, key: &K, reader: F) -> Option<R> {
         self.step("index.peek");
-        self.inner.peek_with(key, reader)
+        if let Some(real) = &self.real {
+            return real.peek_with(key, reader);
+        }
+        // The reader runs outside the model's lock: it may contain scheduling points.
+        let value = self.model_get(key)?;
+        Some(reader(key, &value))
     }
 
     /// See [`scc::HashIndex::contains`].
     pub fn contains(&self, key: &K) -> bool {
         self.step("index.contains");
-        self.inner.contains(key)
+        match &self.real {
+            Some(real) => real.contains(key),
+            None => self.model_get(key).is_some(),
+        }
     }
 
     /// See [`scc::HashIndex::len`].
     pub fn len(&self) -> usize {
         self.step("index.len");
-        self.inner.len()
+        match &self.real {
+            Some(real) => real.len(),
+            None => self.model.lock().expect("model lock").map.len(),
+        }
     }
 
     /// See [`scc::HashIndex::is_empty`].
@@ -192,25 +257,43 @@ impl<K: Eq + Hash, V> HashIndex<K, V> {
         self.len() == 0
     }
 
-    /// See [`scc::HashIndex::insert_sync`].
-    pub fn insert_sync(&self, key: K, value: V) -> Result<(), (K, V)> {
-        self.step("index.insert");
-        self.inner.insert_sync(key, value)
-    }
-
     /// See [`scc::HashIndex::remove_sync`].
     pub fn remove_sync(&self, key: &K) -> bool {
         self.step("index.remove");
-        let removed = self.inner.remove_sync(key);
+        let removed = match &self.real {
+            Some(real) => real.remove_sync(key),
+            None => {
+                let mut model = self.model.lock().expect("model lock");
+                match model.map.remove(key) {
+                    Some(value) => {
+                        model.limbo.push(value);
+                        true
+                    }
+                    None => false,
+                }
+            }
+        };
         verif::sched_point("index.removed");
         removed
+    }
+
+    /// Drops the values of removed entries, as scc's garbage collection does at some later time.
+    /// Returns how many were released.
+    pub fn verif_collect(&self) -> usize {
+        let limbo = std::mem::take(&mut self.model.lock().expect("model lock").limbo);
+        let n = limbo.len();
+        drop(limbo);
+        n
     }
 
     /// See [`scc::HashIndex::get_sync`].
     pub fn get_sync(&self, key: &K) -> Option<OccupiedEntry<'_, K, V>> {
         self.step("index.get");
         let simulated = verif::current().is_some();
-        let inner = self.inner.get_sync(key)?;
+        let inner = match &self.real {
+            Some(real) => OccupiedInner::Real(real.get_sync(key)?),
+            None => OccupiedInner::Model(key.clone(), self.model_get(key)?),
+        };
         if simulated {
             self.busy.store(true, Ordering::SeqCst);
         }
@@ -228,11 +311,39 @@ impl<K: Eq + Hash, V> HashIndex<K, V> {
             self.busy.store(true, Ordering::SeqCst);
         }
         let busy = simulated.then_some(BusyGuard(&self.busy));
-        match self.inner.entry_sync(key) {
-            scc::hash_index::Entry::Occupied(inner) => {
-                Entry::Occupied(OccupiedEntry { inner, _busy: busy })
+        match &self.real {
+            Some(real) => {
+                match real.entry_sync(key) {
+                    scc::hash_index::Entry::Occupied(inner) => {
+                        Entry::Occupied(OccupiedEntry {
+                            inner: OccupiedInner::Real(inner),
+                            _busy: busy,
+                        })
+                    }
+                    scc::hash_index::Entry::Vacant(inner) => {
+                        Entry::Vacant(VacantEntry {
+                            inner: VacantInner::Real(inner),
+                            busy,
+                        })
+                    }
+                }
             }
-            scc::hash_index::Entry::Vacant(inner) => Entry::Vacant(VacantEntry { inner, busy }),
+            None => {
+                match self.model_get(&key) {
+                    Some(value) => {
+                        Entry::Occupied(OccupiedEntry {
+                            inner: OccupiedInner::Model(key, value),
+                            _busy: busy,
+                        })
+                    }
+                    None => {
+                        Entry::Vacant(VacantEntry {
+                            inner: VacantInner::Model(self, key),
+                            busy,
+                        })
+                    }
+                }
+            }
         }
     }
 }
@@ -336,4 +447,10 @@ pub fn issue_memory_sizes<F: PathFetcher>(manager: &MultiPathManager<F>) -> (usi
 /// Number of (src, dst) pairs currently managed.
 pub fn managed_pairs<F: PathFetcher>(manager: &MultiPathManager<F>) -> usize {
     manager.0.managed_paths.len()
+}
+
+/// Releases the workers of removed pairs, as the concurrent map's garbage collection does at some
+/// later time. Returns how many entries were released.
+pub fn collect_removed<F: PathFetcher>(manager: &MultiPathManager<F>) -> usize {
+    manager.0.managed_paths.verif_collect()
 }
